@@ -17,6 +17,7 @@ type Clause struct {
 	Kind string // requires, ensures, invariant, decreases, assert
 	Tags []string
 	Loop int // loop ordinal for invariant/decreases
+	Callee string // atcall: suffix of the callee's name
 	E    *Expr
 	Src  string
 	File string
@@ -38,6 +39,7 @@ type Contract struct {
 	Ensures  []*Clause
 	Invs     []*Clause
 	Decs     []*Clause
+	AtCalls []*Clause
 	Prefers  []*Clause
 	Crash    []*Clause
 	Hints    []*Clause // instances of manual axioms: `hint#N axiomName(args...)`
@@ -140,7 +142,7 @@ func newSpecs() *Specs {
 
 var clauseKW = map[string]bool{
 	"requires": true, "ensures": true, "modifies": true, "let": true, "invariant": true,
-	"decreases": true, "prefer": true, "crash_invariant": true, "hint": true, "assumed": true, "returns": true, "refines": true, "verify": true, "ghostmodifies": true, "opt": true, "loopmodifies": true,
+	"decreases": true, "prefer": true, "crash_invariant": true, "hint": true, "atcall": true, "assumed": true, "returns": true, "refines": true, "verify": true, "ghostmodifies": true, "opt": true, "loopmodifies": true,
 }
 
 type rawLine struct {
@@ -646,6 +648,17 @@ func (sp *Specs) parseClause(c *Contract, it rawLine) error {
 		}
 		c.Lets[name] = &Let{name, e}
 		c.LetOrder = append(c.LetOrder, name)
+	case "atcall":
+		// atcall[tags] callee: expr  -- asserted in the caller's frame (locals visible) at every call of `callee`
+		i := strings.Index(body, ":")
+		if i <= 0 || strings.ContainsAny(strings.TrimSpace(body[:i]), " \t(") {
+			return fmt.Errorf("%s: atcall callee: expr", where)
+		}
+		e, err := parseExpr(body[i+1:])
+		if err != nil {
+			return fmt.Errorf("%s: %v", where, err)
+		}
+		c.AtCalls = append(c.AtCalls, &Clause{Kind: kw, Tags: tags, Callee: strings.TrimSpace(body[:i]), E: e, Src: strings.TrimSpace(body[i+1:]), File: it.file, Line: it.line})
 	case "requires", "ensures", "invariant", "decreases", "prefer", "crash_invariant", "hint":
 		e, err := parseExpr(body)
 		if err != nil {
